@@ -110,7 +110,7 @@ def generate(seed, tier):
     out = []
     for c in cases:
         # 'plain': the asynchronous dispatcher serving plain (non-coroutine) functions
-        for is_async in (False, True, 'plain'):
+        for is_async in (False, True, 'plain', 'wrapped'):
             out.append(dict(c, **{'async': is_async}))
     return out
 
